@@ -56,12 +56,17 @@ ASSUMPTIONS = [
 
 E_ACUTE = "é"
 E_CIRC = "ê"
+PI = "π"                                  # cf 80: shares no byte with e-acute (c3 a9)
 EURO, KIP, PERMILLE = "€", "₭", "‰"      # e2 82 ac | e2 82 ad (shares two bytes) | e2 80 b0 (shares the lead byte)
 # family -> input universe, the multi-byte literal of its expressions, a sibling symbol no expression mentions
 FAMILIES = {
     "ascii": {"universe": "abc", "literal": None, "sibling": None},
     "mb": {"universe": E_ACUTE + E_CIRC + "a", "literal": E_ACUTE, "sibling": E_CIRC},
     "mb3": {"universe": EURO + KIP + PERMILLE + "a", "literal": EURO, "sibling": KIP},
+    # the other multi-byte symbol of the input universe has a DIFFERENT lead byte than the expression's literal
+    # (inputs are drawn from {e-acute, pi, a}; what "can still be extended to a sentence" is judged over the universe that
+    # also has e-circumflex: a machine cannot know that no other symbol with lead byte c3 will ever be offered)
+    "mbf": {"universe": E_ACUTE + PI + "a" + E_CIRC, "inputs": E_ACUTE + PI + "a", "literal": E_ACUTE, "sibling": PI},
 }
 REPS = [(0, None), (1, None), (0, 1), (0, 0), (0, 2), (1, 1), (1, 2), (2, 2)]
 PER_EXPR_KIND = 3        # deviations of one kind recorded (with fresh-machine confirmation) per expression and machine
@@ -418,6 +423,11 @@ def judge(kind, whole, obs, n, accepting, midsymbol):
 #       byte without a transition on the literal's second byte) and (b) the observation equals the prediction of a model
 #       of exactly that defect: after the lead byte only the wildcard (if live) applies and completes the "symbol" after
 #       two bytes; stray continuation bytes are then unknown symbols of their own
+# K6  bytes-multibyte:wildcard-takes-one-byte-of-foreign-lead-symbol
+#       '.' / a negated class takes ONE byte of a multi-byte symbol whose lead byte differs from that of the expression's
+#       literal (the added continuation states only exist behind the literal's lead byte), so each byte of such a symbol is
+#       an unknown symbol of its own.  Given only in the family whose universe has such a symbol, and only when the
+#       observation equals the prediction of a model of exactly that reading
 # U1  upstream-greenery:wrong-language
 #       the automaton greenery itself builds for the printed expression prescribes, for this very input, something else
 #       than the expression's language does -- and the cpppo machine does exactly what greenery's automaton prescribes
@@ -427,6 +437,7 @@ K1 = "bytes-multibyte:lead-byte-of-dead-symbol-absorbed"
 K2 = "bytes-multibyte:wildcard-rejects-symbol-sharing-lead-byte"
 K3 = "bytes-multibyte:vacuous-literal-machine-is-bytewise"
 K5 = "bytes-multibyte:3-byte-symbol-continuation-state-overwritten"
+K6 = "bytes-multibyte:wildcard-takes-one-byte-of-foreign-lead-symbol"
 U1 = "upstream-greenery:wrong-language"
 
 
@@ -485,6 +496,29 @@ class Diagnosis:
             n = i
         return n, (n >= 1 and nullable(self.ref.residual(mapped[:n])))
 
+    def foreign_model(self, s):
+        """(consumed bytes, terminal) when every byte of the foreign-lead symbol is one unknown symbol of its own and every
+        other symbol is handled as the statement demands (lenient byte prefix, see Ref.expect_bytes)"""
+        ref, foreign = self.ref, self.sibling
+        d, nbytes = ref.ast, 0
+        for c in s:
+            e = c.encode("utf-8")
+            if c == foreign:
+                for _b in e:
+                    nd = deriv(d, foreign, ref.memo)
+                    if is_empty(nd):
+                        return nbytes, (nbytes >= 1 and nullable(d))
+                    d, nbytes = nd, nbytes + 1
+                continue
+            live = [u.encode("utf-8") for u in ref.universe if u != foreign and not is_empty(deriv(d, u, ref.memo))]
+            for j in range(1, len(e) + 1):
+                if not any(l[:j] == e[:j] for l in live):
+                    if j > 1:
+                        return nbytes + j - 1, False
+                    return nbytes, (nbytes >= 1 and nullable(d))
+            d, nbytes = deriv(d, c, ref.memo), nbytes + len(e)
+        return nbytes, (nbytes >= 1 and nullable(d))
+
     def overwritten_signature(self, machine):
         """some state reached on the literal's lead byte has no transition on the literal's second byte (raw dict look-ups)"""
         enc = self.literal.encode("utf-8")
@@ -527,6 +561,8 @@ class Diagnosis:
         k = obs["sent"]
         if family != "ascii" and isinstance(whole, bytes):
             failed = not obs["terminal"]
+            if family == "mbf" and self.sibling in s and (k, obs["terminal"]) == self.foreign_model(s):
+                return K6, ""
             if machine is not None and self.overwritten_signature(machine) \
                and (k, obs["terminal"]) == self.overwritten_model(whole):
                 return K5, ""
@@ -674,9 +710,9 @@ def all_strings(symbols, maxlen):
 def plan(tier):
     if tier == "quick":
         return {"ascii_size": 4, "ascii_len": 5, "chunk_size": 2, "wrap_size": 2, "mb_size": 3, "mb_len": 4, "mb_chunks": False,
-                "mb3_size": 3, "mb3_len": 4}
+                "mb3_size": 3, "mb3_len": 4, "mbf_size": 3, "mbf_len": 4}
     return {"ascii_size": 5, "ascii_len": 5, "chunk_size": 4, "wrap_size": 3, "mb_size": 4, "mb_len": 5, "mb_chunks": True,
-            "mb3_size": 4, "mb3_len": 4}
+            "mb3_size": 4, "mb3_len": 4, "mbf_size": 4, "mbf_len": 4}
 
 
 _neighbour = []
@@ -710,7 +746,7 @@ def shard(acc, item, tier, seed):
     other_machines_exist()
     pl = plan(tier)
     import random
-    strings = all_strings(FAMILIES[family]["universe"], pl[family + "_len"])
+    strings = all_strings(FAMILIES[family].get("inputs") or FAMILIES[family]["universe"], pl[family + "_len"])
     if seed:
         random.Random(seed).shuffle(strings)
     for ast, size in entries:
@@ -756,8 +792,13 @@ def run(ctx):
     per = max(1, len(mb3) // 60)
     for i in range(0, len(mb3), per):
         items.append(("mb3", [e[1] for e in mb3[i:i + per]]))
+    mbf = sorted(enumerate_exprs(pl["mbf_size"], MB_ATOMS).items())
+    mbf = [e for e in mbf if mentions(e[1][0], E_ACUTE)]
+    per = max(1, len(mbf) // 60)
+    for i in range(0, len(mbf), per):
+        items.append(("mbf", [e[1] for e in mbf[i:i + per]]))
     acc = ctx.pmap(__name__, "shard", items)
-    acc.counters["expected_expressions"] = len(asc) + len(mb) + len(mb3)
+    acc.counters["expected_expressions"] = len(asc) + len(mb) + len(mb3) + len(mbf)
     return acc
 
 
@@ -773,12 +814,12 @@ def guards(acc, ctx):
         g.append("re cross-validation covered only %d pairs" % c.get("re_crosschecked", 0))
     if c.get("re_witness_checked", 0) < floor * 30:
         g.append("re witness validation covered only %d residuals" % c.get("re_witness_checked", 0))
-    for fam, least in (("ascii", 1000), ("mb", 50), ("mb3", 50)):
+    for fam, least in (("ascii", 1000), ("mb", 50), ("mb3", 50), ("mbf", 50)):
         for oc in ("accept-all-input", "accept-prefix-leave-rest", "reject-nothing-consumed", "reject-empty-input",
                    "reject-at-end-of-input", "reject-after-prefix"):
             if acc.outcomes.get("%s:%s" % (fam, oc), 0) < least:
                 g.append("outcome class %s:%s seen fewer than %d times" % (fam, oc, least))
-    for fam in ("mb", "mb3"):
+    for fam in ("mb", "mb3", "mbf"):
         if acc.outcomes.get(fam + ":stop-inside-symbol", 0) < 50:
             g.append("multi-byte family %s never expects a stop inside a symbol" % fam)
         if c.get("unsupported_" + fam, 0) < 5 or c.get("machines_" + fam, 0) < 100:
@@ -796,7 +837,7 @@ def replay(case):
     ast = totuple(case["ast"])
     family, kind = case["family"], case["kind"]
     universe, literal = FAMILIES[family]["universe"], FAMILIES[family]["literal"]
-    strings = all_strings(universe, case.get("maxlen") or 5)       # only the diagnosis (kind label) looks at other strings
+    strings = all_strings(FAMILIES[family].get("inputs") or universe, case.get("maxlen") or 5)       # only the diagnosis (kind label) looks at other strings
     ref = Ref(ast, universe)
     expr = show(ast)
     diag = Diagnosis(ref, expr, strings, family)
